@@ -1151,6 +1151,100 @@ func (p *pipeGen) admitCase() {
 	p.op("pipe dump")
 }
 
+// allowListCase: ECS-aware caching restricted to an allow-list of client networks; peers inside it in both
+// byte forms a socket can report (4 bytes, 16-byte IPv4-mapped), peers outside, an IPv6 peer.
+func (p *pipeGen) allowListCase() {
+	r := p.r
+	p.ecs = true
+	in := r.Bytes(4)
+	nets := []string{fmt.Sprintf("4:%s/%d", vlib.Hex(in), vlib.Pick(r, []int{8, 16, 24, 32}))}
+	if r.Bool() {
+		nets = append(nets, fmt.Sprintf("6:%s/%d", vlib.Hex(r.Bytes(16)), vlib.Pick(r, []int{32, 48, 64})))
+	}
+	if r.Bool() {
+		nets = append(nets, fmt.Sprintf("4:%s/%d", vlib.Hex(r.Bytes(4)), 24))
+	}
+	p.op("pipe new on %s,0 nets=%s", vlib.Pick(r, []string{"24,56,24,56", "32,128,24,48", "24,56,16,32"}), strings.Join(nets, ";"))
+	out := append([]byte(nil), in...)
+	out[0] ^= 0x80
+	peers := []string{"peer=4:" + vlib.Hex(in), "peer=m:" + vlib.Hex(in), "peer=4:" + vlib.Hex(out), "peer=m:" + vlib.Hex(out), "peer=6:" + vlib.Hex(r.Bytes(16)), ""}
+	g := genGid(r)
+	g.scope = netip.Prefix{}
+	q := fmt.Sprintf("%s,%d,%d,%s", nameTok(g.ls), g.qtype, g.class, vlib.B(g.cd))
+	a := genPrefix(r, r.Chance(1, 4))
+	if a.Bits() == 0 {
+		a = withBits(a, 8)
+	}
+	sb := vlib.Pick(r, []int{a.Bits(), min(a.Bits(), 24), 16, 8})
+	route := func() string { return vlib.Pick(r, []string{"msg", "wire"}) }
+	fl := func(x string) string {
+		if x == "" {
+			return ""
+		}
+		return " " + x
+	}
+	p.op("pipe ask %s %s %s %d %d%s", route(), q, fmtScope(a), p.nextID(), sb, fl(vlib.Pick(r, peers[:2])))
+	b := withBits(flipBit(a, r.Intn(max(min(sb, a.Bits()), 1))), a.Bits())
+	for _, c := range []netip.Prefix{a, b, {}} {
+		for k := 0; k < 2; k++ {
+			p.op("pipe get %s %s %s%s", route(), q, fmtScope(c), fl(vlib.Pick(r, peers)))
+		}
+	}
+	// a peer outside the allow-list: its ECS is stripped, its answer is shared
+	g2 := g
+	g2.cd = !g.cd
+	q2 := fmt.Sprintf("%s,%d,%d,%s", nameTok(g2.ls), g2.qtype, g2.class, vlib.B(g2.cd))
+	p.op("pipe ask %s %s %s %d %d%s", route(), q2, fmtScope(a), p.nextID(), sb, fl(vlib.Pick(r, peers[2:5])))
+	p.op("pipe get %s %s %s%s", route(), q2, fmtScope(b), fl(vlib.Pick(r, peers)))
+	p.op("pipe get %s %s -", route(), q2)
+	p.op("pipe dump")
+}
+
+// failedResolutionCase: the resolution fails for one audience (bare SERVFAIL from the upstream): the RFC 9520
+// state the write-back files must serve that question, CD partition and audience only.
+func (p *pipeGen) failedResolutionCase() {
+	r := p.r
+	p.ecs = !r.Chance(1, 5)
+	p.op("pipe new %s %s,0", map[bool]string{true: "on", false: "off"}[p.ecs], vlib.Pick(r, []string{"24,56,24,56", "32,128,32,128", "24,56,24,48"}))
+	g := genGid(r)
+	g.scope = netip.Prefix{}
+	for len(g.ls) == 0 {
+		g.ls = genLabels(r)
+	}
+	q := func(x gid) string { return fmt.Sprintf("%s,%d,%d,%s", nameTok(x.ls), x.qtype, x.class, vlib.B(x.cd)) }
+	a := genPrefix(r, r.Chance(1, 4))
+	if a.Bits() == 0 {
+		a = withBits(a, 8)
+	}
+	if r.Chance(1, 4) {
+		a = netip.Prefix{}
+	}
+	route := func() string { return vlib.Pick(r, []string{"msg", "wire"}) }
+	sbTok := vlib.Pick(r, []string{"-", "-", "-", "24 opt=S", "- opt=c"})
+	p.op("pipe ask %s %s %s %d %s servfail", route(), q(g), fmtScope(a), p.nextID(), sbTok)
+	others := []netip.Prefix{a, {}, genPrefix(r, false)}
+	if a.IsValid() {
+		others = append(others, withBits(flipBit(a, r.Intn(a.Bits())), a.Bits()), withBits(a, a.Addr().BitLen()))
+	}
+	for _, c := range others {
+		p.op("pipe get %s %s %s", route(), q(g), fmtScope(c))
+	}
+	p.op("pipe get store %s -", q(g))
+	p.op("pipe fget wire %s,-", q(g))
+	p.op("pipe fget msg %s,%s", q(g), fmtScope(a))
+	m, _ := mutate(r, g, p.cycle([]string{"cd", "type", "class", "byte", "child"}))
+	p.op("pipe get %s %s %s", route(), q(m), fmtScope(a))
+	// the same audience resolves fine later: the answer resets its own failure only
+	if r.Bool() {
+		p.op("pipe ask %s %s %s %d -", route(), q(m), fmtScope(a), p.nextID())
+		p.op("pipe get %s %s %s", route(), q(g), fmtScope(a))
+	}
+	if r.Chance(1, 3) {
+		p.purge(g)
+	}
+	p.op("pipe dump")
+}
+
 // purgeCase: shared + scoped variants, case mixes, a squatter under the purged
 // key, and Unicode look-alike names in the scoped sweep.
 func (p *pipeGen) purgeCase() {
@@ -1168,6 +1262,15 @@ func (p *pipeGen) purgeCase() {
 		s.ls = flipCase(r, g.ls)
 		s.scope = genPrefix(r, r.Chance(1, 4))
 		p.op("pipe set own %s %d -", s.tok(), p.nextID())
+	}
+	if r.Chance(1, 4) {
+		// a geo-routed name: answers for many client subnets in both CD partitions
+		for k := 0; k < 34+r.Intn(40); k++ {
+			s := g
+			s.cd = r.Bool()
+			s.scope = genPrefix(r, r.Chance(1, 4))
+			p.op("pipe set own %s %d -", s.tok(), p.nextID())
+		}
 	}
 	// bystanders one dimension away (must survive), one of them scoped
 	for k := 0; k < 2; k++ {
@@ -1255,7 +1358,11 @@ func gen(r *vlib.R, n int, tier string, emit func(string)) {
 	p := &pipeGen{r: r, emit: emit}
 	for n > 0 {
 		p.n = 0
-		switch k := r.Intn(32); {
+		switch k := r.Intn(36); {
+		case k >= 32 && k < 34:
+			p.allowListCase()
+		case k >= 34:
+			p.failedResolutionCase()
 		case k >= 26 && k < 29:
 			p.prefetchCase()
 		case k >= 29:
